@@ -149,10 +149,30 @@ fn to_origin_form(req: http::Request<hyper::Body>) -> (http::Request<hyper::Body
     (http::Request::from_parts(parts, body), pq)
 }
 
-fn call_server(server: &Arc<TMutex<OmahaServer>>, req: http::Request<hyper::Body>) -> Result<(u16, Option<Vec<u8>>, Vec<u8>), String> {
+/// `frames` > 1: the request body reaches the server in that many data frames (as it does over a socket when it
+/// exceeds one read or is split across segments) instead of one.
+fn call_server(server: &Arc<TMutex<OmahaServer>>, req: http::Request<hyper::Body>, frames: usize) -> Result<(u16, Option<Vec<u8>>, Vec<u8>), String> {
     let r = catch(|| {
         block_on(async {
-            let resp = handle_request(req, server).await.map_err(|e| e.to_string())?;
+            let (req, feeder) = if frames > 1 {
+                let (parts, body) = req.into_parts();
+                let bytes = hyper::body::to_bytes(body).await.map_err(|e| e.to_string())?.to_vec();
+                let (mut tx, body) = hyper::Body::channel();
+                let size = ((bytes.len() + frames - 1) / frames).max(1);
+                let feeder = async move {
+                    for chunk in bytes.chunks(size) {
+                        if tx.send_data(hyper::body::Bytes::copy_from_slice(chunk)).await.is_err() {
+                            break;
+                        }
+                    }
+                }
+                .boxed_local();
+                (http::Request::from_parts(parts, body), feeder)
+            } else {
+                (req, async {}.boxed_local())
+            };
+            let (resp, ()) = futures::join!(handle_request(req, server), feeder);
+            let resp = resp.map_err(|e| e.to_string())?;
             let (parts, body) = resp.into_parts();
             let bytes = hyper::body::to_bytes(body).await.map_err(|e| e.to_string())?.to_vec();
             Ok::<_, String>((parts.status.as_u16(), parts.headers.get(http::header::ETAG).map(|v| v.as_bytes().to_vec()), bytes))
@@ -170,6 +190,7 @@ fn case_direct(t: &mut Tape, ctx: &CaseCtx) -> CaseResult {
     let reconfigure = t.chance(1, 4);
     let mixed = !events_only && t.chance(1, 4);
     let reconf_style: Vec<usize> = (0..4).map(|_| t.choose(6)).collect();
+    let frames = if t.chance(1, 3) { 2 + t.choose(3) } else { 1 };
     if t.chance(1, 6) {
         // a forced ETag: any visible-ASCII text
         const TOK: [&str; 8] = ["00", ":", "\"", "W/", "ab", "3045", " ", "~"];
@@ -252,7 +273,7 @@ fn case_direct(t: &mut Tape, ctx: &CaseCtx) -> CaseResult {
                 .collect::<serde_json::Map<_, _>>()
                 .into();
             let req = http::Request::post("/set_responses_by_appid").body(hyper::Body::from(body.to_string())).unwrap();
-            match call_server(&server, req) {
+            match call_server(&server, req, frames) {
                 Ok((200, _, _)) => {}
                 other => return bad("reconfiguration-failed", format!("/set_responses_by_appid answered {other:?}")),
             }
@@ -274,7 +295,7 @@ fn case_direct(t: &mut Tape, ctx: &CaseCtx) -> CaseResult {
             Err(e) => return Ok(CaseReport { key: hash_of(&c.url.text), classes: vec!["client_build_error"], sample: ctx.want_sample.then(|| json!({"case": case, "error": format!("{e:?}")})), ..Default::default() }),
         };
         let (req, pq) = to_origin_form(req);
-        let (status, etag, body) = match call_server(&server, req) {
+        let (status, etag, body) = match call_server(&server, req, frames) {
             Ok(x) => x,
             Err(e) if e.starts_with("PANIC") => {
                 let loc = e.split(':').nth(0).unwrap_or("").to_string() + ":" + e.split(':').nth(1).unwrap_or("");
